@@ -78,7 +78,11 @@ Definition check_case (c : case) : bool :=
                  let obs := obs_get (fst nt) (o_tabs c) in
                  if c_conc c then prows_eqb (sort_rows obs) (sort_rows rows) else prows_eqb obs rows)
               (r_tabs s) &&
-      list_eqb str_eqb (sort_strs (map snd (o_locs c))) (sort_strs (map snd (r_locrows s))) &&
+      (* Flush visits the tables in sorted name order (= creation order here), so the
+         location table is reproduced exactly in sequential sessions *)
+      (if c_conc c
+       then list_eqb str_eqb (sort_strs (map snd (o_locs c))) (sort_strs (map snd (r_locrows s)))
+       else list_eqb (fun a b => (fst a =? fst b) && str_eqb (snd a) (snd b)) (o_locs c) (r_locrows s)) &&
       ids_from 1 (o_locs c)
   end.
 
